@@ -105,6 +105,14 @@ fn handle(line: &str) -> Result<String, String> {
             };
             Ok(format!("W={w} G0={} G1={g1}", dump_game(&g0)))
         }
+        "tt" => crate::cmds2::tt(&f),
+        "limits" => crate::cmds2::limits(&f),
+        "evalpair" => crate::cmds2::evalpair(&f),
+        "blend" => crate::cmds2::blend(&f),
+        "see" => crate::cmds2::see_cmd(&f),
+        "san" => crate::cmds2::san_cmd(&f),
+        "picker" => crate::cmds2::picker(&f),
+        "search" => crate::cmds2::search_cmd(&f),
         other => Err(format!("unknown request {other}")),
     }
 }
@@ -204,4 +212,23 @@ pub fn dump_misc() {
         "tt_entry_size {}",
         std::mem::size_of::<TranspositionTableEntry<SearchTranspositionTableData>>()
     );
+}
+
+/// The LMR table by the same `f32` expression as `lmr_table.rs::init` (that module is private);
+/// base and factor are the source-text constants passed in by the translator.
+pub fn dump_lmr(base: &str, factor: &str) {
+    let base: f32 = base.parse().unwrap();
+    let factor: f32 = factor.parse().unwrap();
+    for depth in 0..64usize {
+        let row: Vec<String> = (0..64usize)
+            .map(|mc| {
+                if depth == 0 || mc == 0 {
+                    "0".to_string()
+                } else {
+                    ((base + f32::ln(depth as f32) * f32::ln(mc as f32) / factor) as u8).to_string()
+                }
+            })
+            .collect();
+        println!("{}", row.join(" "));
+    }
 }
